@@ -84,7 +84,11 @@ CouponHashSet<A>* CouponHashSet<A>::newSet(const void* bytes, size_t len, const 
     throw std::invalid_argument("Attempt to deserialize invalid CouponHashSet with lgConfigK <= 7. Found: "
                                 + std::to_string(lgK));
   }   
+  HllUtil<A>::checkLgK(lgK);
   uint8_t lgArrInts = data[hll_constants::LG_ARR_BYTE];
+  if (lgArrInts > lgK) {
+    throw std::invalid_argument("Possible corruption: lg size of the coupon array exceeds lgConfigK: " + std::to_string(lgArrInts));
+  }
   const bool compactFlag = ((data[hll_constants::FLAGS_BYTE] & hll_constants::COMPACT_FLAG_MASK) ? true : false);
 
   uint32_t couponCount;
@@ -103,6 +107,8 @@ CouponHashSet<A>* CouponHashSet<A>::newSet(const void* bytes, size_t len, const 
 
   ChsAlloc chsa(allocator);
   CouponHashSet<A>* sketch = new (chsa.allocate(1)) CouponHashSet<A>(lgK, tgtHllType, allocator);
+  typedef std::unique_ptr<CouponHashSet<A>, std::function<void(HllSketchImpl<A>*)>> coupon_hash_set_ptr;
+  coupon_hash_set_ptr ptr(sketch, sketch->get_deleter());
 
   if (compactFlag) {
     const uint8_t* curPos = data + hll_constants::HASH_SET_INT_ARR_START;
@@ -119,7 +125,7 @@ CouponHashSet<A>* CouponHashSet<A>::newSet(const void* bytes, size_t len, const 
                 couponsInArray * sizeof(uint32_t));
   }
 
-  return sketch;
+  return ptr.release();
 }
 
 template<typename A>
@@ -149,7 +155,11 @@ CouponHashSet<A>* CouponHashSet<A>::newSet(std::istream& is, const A& allocator)
     throw std::invalid_argument("Attempt to deserialize invalid CouponHashSet with lgConfigK <= 7. Found: "
                                 + std::to_string(lgK));
   }
+  HllUtil<A>::checkLgK(lgK);
   uint8_t lgArrInts = listHeader[hll_constants::LG_ARR_BYTE];
+  if (lgArrInts > lgK) {
+    throw std::invalid_argument("Possible corruption: lg size of the coupon array exceeds lgConfigK: " + std::to_string(lgArrInts));
+  }
   const bool compactFlag = ((listHeader[hll_constants::FLAGS_BYTE] & hll_constants::COMPACT_FLAG_MASK) ? true : false);
 
   const auto couponCount = read<uint32_t>(is);
